@@ -299,4 +299,37 @@ def search(res, tier, boost=False):
                                       test=describe(te), trial=describe(tr), moved_test=describe(te2), moved_trial=describe(tr2),
                                       base=float(base), moved=float(moved), scaled_error=err))
                         break
+    # nested pairs of one refinement tree that share the LEFT or the RIGHT end point, 1 .. 4 space levels apart (an element with a
+    # descendant of a neighbouring time slab, as the estimators and locally refined meshes pair them), either one as test
+    # element: exchange of the two space intervals, bit for bit
+    from ..slchecks import addr_interval
+    from src.mesh import MeshParametrized
+    for cname in ('UnitSquare', 'LShape') if tier == 'quick' and not boost else ('UnitSquare', 'LShape', 'PiSquare', 'UnitInterval'):
+        gam = make_curve(cname)
+        with contextlib.redirect_stdout(io.StringIO()):
+            opsn = RealOps(gam, MeshParametrized(gam))
+        for it in range(10 if tier == 'quick' else 60):
+            pc = rng.randrange(len(gam.pw_gamma))
+            base_l = 2 if len(gam.pw_gamma) == 1 else 0
+            la, k = base_l + rng.randint(0, 2), 1 + it % 4
+            ma = rng.randrange(2**(la - base_l)) if la > base_l else 0
+            big = addr_interval(gam, (pc, la, ma))
+            small = addr_interval(gam, (pc, la + k, ma * 2**k if (it // 4) % 2 == 0 else (ma + 1) * 2**k - 1))
+            t1, t2 = rng.choice([((0.5, 1.0), (0.0, 0.5)), ((0.0, 1.0), (0.0, 0.5)), ((0.5, 1.0), (0.25, 0.75)), ((0.0, 0.5), (0.0, 0.5))])
+            for xt, xr in ((big, small), (small, big)):
+                te, tr = Stub(t1, xt, gam.pw_gamma[pc]), Stub(t2, xr, gam.pw_gamma[pc])
+                te2, tr2 = Stub(t1, xr, gam.pw_gamma[pc]), Stub(t2, xt, gam.pw_gamma[pc])
+                if not (ok_aspect(te) and ok_aspect(tr) and ok_aspect(te2) and ok_aspect(tr2)):
+                    continue
+                try:
+                    v1, v2 = opsn.SL[False].bilform(tr, te), opsn.SL[False].bilform(tr2, te2)
+                except AssertionError as exc:
+                    res.violation('C12:nested-pair-raises', dict(curve=cname, test=describe(te), trial=describe(tr), error=repr(exc)[:200]))
+                    break
+                res.count(('exchange-nested', cname, pc, la, k, repr(te), repr(tr)), True)
+                if v1 != v2:
+                    res.violation('C12:exchange-not-bitwise:nested-shared-end',
+                                  dict(curve=cname, piece=pc, levels_apart=k, test=describe(te), trial=describe(tr), base=float(v1), exchanged=float(v2),
+                                       relative_difference=abs(v1 - v2) / max(abs(v1), 1e-300)))
+                    break
     res.notes['worst_scaled_error'] = worst
